@@ -124,6 +124,12 @@ func c01RExp(sb *strings.Builder, e syntax.Exp) error {
 			id = t.Call.GetFqid()
 		}
 		sb.WriteString("(merge " + id + " ")
+		// the node whose forks enumerate the elements at run time (`findMergeForkNode`)
+		if t.ForkNode != nil {
+			sb.WriteString("(fn " + t.ForkNode.Id + ") ")
+		} else {
+			sb.WriteString("(fn) ")
+		}
 		if err := c01RExp(sb, t.Value); err != nil {
 			return err
 		}
